@@ -427,7 +427,7 @@ func buildCase(r *vgen.Rand, fam, proto, focus string, combo [3]int, short int, 
 				p = vgen.Pick(r, specPathsUntidy)
 			}
 		} else if r.Chance(1, 4) {
-			p = "/"
+			p = vgen.Pick(r, []string{"/", "/", "/x", "/v1/traces"}) // a path in a gRPC endpoint URL: F-C20-8
 		}
 		sch := "http://"
 		if focus == "endpoint" && r.Chance(1, 8) {
@@ -443,7 +443,7 @@ func buildCase(r *vgen.Rand, fam, proto, focus string, combo [3]int, short int, 
 		if http {
 			p = vgen.Pick(r, genPaths)
 		} else if r.Chance(1, 4) {
-			p = "/"
+			p = vgen.Pick(r, []string{"/", "/", "/x", "/a/b"})
 		}
 		sch := "http://"
 		if focus == "endpoint" && r.Chance(1, 8) {
@@ -673,6 +673,9 @@ func corpusExp() []*expCase {
 			add(fam, proto, "specific endpoint equal to the default over a generic one", map[int]string{specEp: "http://" + dh, genEp: "http://{C}"})
 			add(fam, proto, "endpoint option equal to the default over both variables", map[int]string{specEp: "http://{B}", genEp: "http://{C}"}, Opt{K: "endpoint", S: dh})
 			add(fam, proto, "timeout option equal to the default over the variables", map[int]string{genEp: "http://{C}", specTmo: "5000", genTmo: "3000"}, Opt{K: "timeout", D: 10e9})
+			add(fam, proto, "padded generic timeout over nothing", map[int]string{genEp: "http://{C}", genTmo: " 3000 "})
+			add(fam, proto, "padded specific compression over generic none", map[int]string{genEp: "http://{C}", specComp: " gzip", genComp: "none"})
+			add(fam, proto, "padded specific endpoint over a generic one", map[int]string{specEp: "\thttp://{B}", genEp: "http://{C}"})
 			add(fam, proto, "upper-case scheme", map[int]string{specEp: "HTTP://{B}", genEp: "http://{C}"})
 			// transport security follows the deciding endpoint source (plain-text collectors: TLS reaches nobody)
 			out = append(out,
@@ -689,6 +692,9 @@ func corpusExp() []*expCase {
 			)
 			if proto == "grpc" {
 				out = append(out,
+					&expCase{Fam: fam, Proto: proto, Note: "corpus: generic endpoint URL with a path over gRPC", Env: [10]string{genEp: "http://{C}/x"}, Opts: []Opt{ins}},
+					&expCase{Fam: fam, Proto: proto, Note: "corpus: specific endpoint URL with a path over gRPC, generic plain", Env: [10]string{specEp: "http://{B}/v1/traces", genEp: "http://{C}"}},
+					&expCase{Fam: fam, Proto: proto, Note: "corpus: WithEndpoint over a generic endpoint URL with a path", Env: [10]string{genEp: "http://{C}/x"}, Opts: []Opt{{K: "endpoint", S: "{A}"}}},
 					&expCase{Fam: fam, Proto: proto, Note: "corpus: WithGRPCConn over both endpoint variables, gzip configured", Env: [10]string{genEp: "http://{C}", specEp: "http://{B}", genComp: "gzip", genHdr: "x-c20-g=gen", genTmo: "3000"}, Opts: []Opt{{K: "grpcconn", S: "{A}"}}},
 					&expCase{Fam: fam, Proto: proto, Note: "corpus: WithGRPCConn and WithEndpoint, WithCompressor(gzip)", Opts: []Opt{{K: "grpcconn", S: "{A}"}, {K: "endpoint", S: "{B}"}, {K: "compressor", S: "gzip"}, ins}},
 				)
